@@ -497,6 +497,33 @@ def check(fx, rep, tier):
             fam = re.sub(r"\d+$", "n", mn) if re.match(r"^(PUSH|DUP|SWAP|LOG)\d+$", mn) else mn
             rep.oblige(got is not None and got >= want, "R03.4", f"gas-table:{fam}", "-", (f"0x{x:02x} {mn}: the minimum gas charged is {got}, the instruction costs at least {want} on the EVM: a thread is under-charged and continues once the minimum gas it has really consumed exceeds the limit" if got is not None else f"0x{x:02x} {mn}: min_gas_cost is no longer a table over literals, constants and the opcode's fields; it cannot be compared with the EVM's minimum"), sample={"rule": "R03.4", "byte": f"{x:02x}", "mnemonic": mn, "charged": got, "evm_minimum": want} if x in (0x01, 0x54, 0xA2, 0xF0) else None)
         rep.floor("R03.4", n_gas, 140, "bytes with a minimum-gas row")
+    # the instruction a taken JUMP lands on is executed (marked and charged) like any other: an opcode that moves the thread ONTO
+    # its validated target (`jump(target)`) while the main loop steps to ip + 1 after every instruction that succeeded skips the
+    # JUMPDEST - its minimum gas is never added to the thread
+    lands_on = []
+    for i_, ob in fx.trait_method_bodies("opcode::Opcode", "execute"):
+        for n, ps in F.calls(ob["hir"]["value"]):
+            if (F.callee_def(n) or "") in ("disassembly::ExecutionThread::jump", "disassembly::ExecutionThread::at") and n.get("args"):
+                at = T.term(n["args"][0], T.env_at(ps, n, T.mutated_locals(ob["hir"]["value"])), T.mutated_locals(ob["hir"]["value"]))
+                arith = any(st[0] == "bin" and st[1] in ("Sub", "Add") for st in T.subterms(at))
+                if not arith:
+                    lands_on.append((i_.get("self_adt"), n))
+    steps_always = False
+    adv_def = getattr(vm, "advance_own", adv)["def"]
+    for n, ps in F.calls(ml["hir"]["value"]):
+        if adv_def in cg.resolve_local(n) or (n.get("def") or "") == adv_def:
+            conds = [T.short(T.term(c, T.Env())) for c, holds in T.path_conditions(ps, n)]
+            if not any("jump" in c.lower() or "moved" in c.lower() for c in conds):
+                steps_always = True
+    if lands_on:
+        rep.oblige(
+            not steps_always,
+            "R03.5",
+            "jump-target-charged",
+            F.loc(lands_on[0][1]["span"]),
+            f"{sorted({t.split('::')[-1] for t, _ in lands_on})} place the thread on the validated target itself and the main loop then steps past it: the JUMPDEST a taken JUMP lands on is neither marked visited nor charged, so a thread runs on after the minimum gas it has really consumed exceeds the limit (by one unit per taken jump)",
+            sample={"rule": "R03.5", "movers_landing_on_target": sorted({t for t, _ in lands_on}), "main_loop_steps_after_every_instruction": steps_always},
+        )
     # ---------------------------------------------------------------- R03.5
     # the fork path must also consult the *thread's* visit count of the target (visited_instructions of the state)
     consults = False
